@@ -186,7 +186,7 @@ def merge_tree(
   changed_files = []
 
   for root, _, files in os.walk(py_path):
-    rel = path_utils.relpath(py_path, root)
+    rel = path_utils.relpath(root, py_path)
     pyi_dir = path_utils.normpath(path_utils.join(pyi_path, rel))
     for f in files:
       if f.endswith(".py"):
